@@ -16,6 +16,8 @@
 (***************************************************************************)
 EXTENDS Naturals, Sequences, FiniteSets, TLC
 
+(* A metric is identified by namespace + name + type: the definitions of one tracepoint may share a NAME and are   *)
+(* still separate metrics, each reported (the harness gives definitions that differ in type or namespace one name). *)
 CONSTANTS MaxDefs, MaxLabels, MaxProcs,
           Rich      \* TRUE: all value classes; FALSE: reduced grid
 
